@@ -5,10 +5,13 @@ import json, re
 import pvlib
 from pvlib import Check, run_tlc, run_cases, payloads
 
-PRELUDE = 'M1 := %{1: 100, "a": 101, [1]: 102, "c": 103}; M2 := %{[1]: 200, 2: 201, {a: 1}: 202}; O1 := {a: 110, c: 111, a!: 112}; O2 := {b: 120, _p: 121, _q: 122}\n'
+PRELUDE = 'B1 := [1].bear({}); R1 := (1:2).bear({}); M1 := %{1: 100, "a": 101, [1]: 102, "c": 103}; M2 := %{[1]: 200, 2: 201, {a: 1}: 202}; O1 := {a: 110, c: 111, a!: 112}; O2 := {b: 120, _p: 121, _q: 122}\n'
 # the operands themselves must be what they were (what they print, contain and index), whatever literal was evaluated
 OPERANDS = "say([M1, M2, O1, O2, M1.S, M2.S, O1.S, O2.S, M1.keys, M2.keys, O1.keys, O2.keys, O1['b], O1['_p], O1['d], O2['a], O2['c], M1[2], M2[1], M1[{a: 1}]])"
-INSPECT = {"1.0": "1.000000", "1.0000001": "1.000000", "1.0000002": "1.000000"}
+INSPECT = {"B1": "{}", "R1": "{}", "(1:2)": "(1:2:nil)", "1.0": "1.000000", "1.0000001": "1.000000", "1.0000002": "1.000000"}
+
+
+KEYTEXT = {}      # how the worker renders each key of the pool (read from a reference run: B1, R1 are descendants, ranges print their step)
 
 
 def v(x):
@@ -61,7 +64,7 @@ def build(case):
 def expect(case):
     kind = case["kind"]
     L, A = case["listed"], case["all"]
-    key = (lambda p: '"' + name(p["k"]) + '"') if kind == "obj" else (lambda p: p["k"]["s"])
+    key = (lambda p: '"' + name(p["k"]) + '"') if kind == "obj" else (lambda p: KEYTEXT.get(p["k"]["s"], p["k"]["s"]))
     def keys(ps): return "[" + ", ".join(key(p) for p in ps) + "]"
     def vals(ps): return "[" + ", ".join(v(p["v"]) for p in ps) + "]"
     def items(ps): return "[" + ", ".join(f"[{key(p)}, {v(p['v'])}]" for p in ps) + "]"
@@ -70,7 +73,7 @@ def expect(case):
         present = "[" + ", ".join(v(a["v"]) for a in case["at"] if a["v"] != -1) + "]"
         canon = "{" + ", ".join(f"{name(p['k'])}: {p['v']}" for p in A) + "}"
         return [keys(L), vals(L), items(L), keys(A), vals(A), items(A), items(L), at, present, canon, None]
-    canon = "%{" + ", ".join(f"{p['k']['s']}: {p['v']}" for p in A) + "}"
+    canon = "%{" + ", ".join(f"{key(p)}: {p['v']}" for p in A) + "}"
     return [keys(A), vals(A), items(A), items(A), str(len(A)), at, canon, None]
 
 
@@ -88,6 +91,11 @@ def run():
     for i, c in enumerate(cases):
         src, lit = build(c)
         reqs.append({"id": str(i), "src": src, "lit": lit})
+    srcs = sorted({p["k"]["s"] for c in cases if c["kind"] == "map" for p in c["pairs"] + c["all"] + c["at"]})
+    kt = run_cases([{"id": "k", "src": PRELUDE + "\n".join(f"say({x})" for x in srcs)}], nproc=1)["k"]["events"]
+    if len(kt) != len(srcs):
+        raise pvlib.Broken("reference rendering of the key pool failed")
+    KEYTEXT.update({x: e[4:] for x, e in zip(srcs, kt)})
     out = run_cases([{"id": r["id"], "src": r["src"]} for r in reqs] + [{"id": "ref", "src": PRELUDE + OPERANDS}], label="C09")
     ref_operands = out["ref"]["events"][-1][4:]
     names = {"obj": ["keys", "values", "items", "keys(private)", "values(private)", "items(private)", "iteration", "index", "call", "structure", "print"],
@@ -139,7 +147,7 @@ def run():
     ck.cov["traces_validated_against_impl"] = len(cases)
     ck.cov["exhaustive"] = True
     ck.cov["rule"] = ("object literals: every sequence of <= MaxPairs pairs over names {a, b, _p, a!, _p!} x ** operands {-, O1, O2, O1 O2, O2 O1}; map literals: every sequence "
-                      "of <= MaxPairs pairs over 14 keys (ints, strs, floats incl. two that print alike, nil, bools, arrays incl. [1] twice-equal, object) x ** operands {-, M1, O1, M1 O1, O2 M1}; "
+                      "of <= MaxPairs pairs over 17 keys (ints, strs, floats incl. two that print alike, a range, descendants of [1] and (1:2) that == accepts, nil, bools, arrays incl. [1] twice-equal, object) x ** operands {-, M1, O1, M1 O1, O2 M1}; "
                       "MaxPairs 2 quick / 3 thorough; accessors keys/values/items(/private), iteration, len, index for every pool key, structure, printed pairs; "
                       "non-trivial = literals with at least one duplicate key")
     ck.assumptions = ["names that are also Map/Obj property names are not used as absent-key probes"]
